@@ -6,14 +6,14 @@ LEVEL_TEXT = ("K: canonicity predicates on all 256 input bits (real ed25519_ref1
               "the modular reduction, expand_message_xmd layout.")
 TRUSTED = ["CBMC 6.11 + uninterpreted functions", "abstract group model (stubs/ideal_ed25519.c)", "L and p constants transcribed in the harness"]
 ASSUMPTIONS = ["scalar_add/sub: inputs reduced (as documented)", "scalar_random: accepted within 2 draws"]
-OUTSIDE = ["the scalar-multiplication ALGORITHMS (signed-window recoding, table construction and constant-time look-ups) and point decoding (square-root chain): the group operations they are built from (add/sub cached and precomp, doubling, conversions, neutral element) ARE decided against the addition law (E2 ring mode), the field kernels under them by E2 limb mode",
+OUTSIDE = ["point decoding (square-root chain), ge25519_double_scalarmult_vartime (sliding windows with scalar-dependent control flow), is_on_main_subgroup / mul_l; the composition of the decided layers (field kernels [E2 limb] -> group operations == addition law [E2 ring] -> scalar-multiplication algorithms == a*P over abstract multiples [E2] + table look-ups [CBMC] + base table [exhaustive]) is on paper",
            "sc25519_reduce / mul / muladd: the value before serialisation lying in [0, 2^256) and the output being the canonical representative (< L) -- the congruence mod L, the absence of int64 overflow for all inputs and the inversion exponent ARE decided (E2 limb mode)",
            "Elligator / Ristretto maps and the Ristretto encode/decode formulas (abstract here)", "main-subgroup test"]
 CORE = ["crypto_core/ed25519/core_ed25519.c", "crypto_scalarmult/ed25519/ref10/scalarmult_ed25519_ref10.c", "sodium/utils.c", "crypto_verify/verify.c"]
 STUBS = ["ideal_ed25519.c", "ideal_hash.c", "rng.c", "misuse.c", "libc.c", "x86_builtins.c"]
 
 
-E2_LIMB = ["fe25519-51", "sc25519", "sc25519-invert", "edwards-group-ops"]
+E2_LIMB = ["fe25519-51", "sc25519", "sc25519-invert", "edwards-group-ops", "ed25519-scalarmult-alg"]
 
 
 LEVEL_TEXT = LEVEL_TEXT + (" Field kernels (E2 irsym limb mode): fe25519_mul/sq/sq2/mul32/add/sub/neg of the Edwards unit == the field operation mod 2^255-19 with limb bounds, for all limbs in the stated ranges."
@@ -32,6 +32,11 @@ def obligations(tier):
         obs.append(Ob("scalarmult-%s" % ("clamp" if cl else "noclamp"), "C07/core.c", units=CORE, stubs=STUBS, defs={"PART": 2, "CLAMP": cl},
                       unwind=70, timeout=900, family="scalarmult-ed25519-drivers",
                       desc="crypto_scalarmult_ed25519(_noclamp): validation, clamping, identity/zero-scalar error", bounds="all input bytes"))
+    for cached in (0, 1):
+        obs.append(Ob("cmov8%s" % ("-cached" if cached else ""), "C07/cmov8.c", units=["sodium/utils.c"], stubs=["libc.c", "misuse.c", "x86_builtins.c"],
+                      defs={"CACHED": cached}, unwind=40, timeout=900, mem=6, nochecks=True, family="table-lookups",
+                      desc="constant-time look-up ge25519_cmov8%s == b * P selected from the table (neutral for 0, negated entry for b < 0)" % ("_cached" if cached else ""),
+                      bounds="all table contents (8 entries, every limb), every digit -8..8"))
     RIS = ["crypto_core/ed25519/core_ristretto255.c", "crypto_core/ed25519/core_ed25519.c", "crypto_scalarmult/ristretto255/ref10/scalarmult_ristretto255_ref10.c",
            "sodium/utils.c", "crypto_verify/verify.c"]
     for part, nm in ((0, "validate-add-sub"), (1, "scalarmult"), (2, "from-hash-random-scalars")):
